@@ -74,9 +74,9 @@ def run(ctx):
             report("harness/" + (o.get("panic") or o.get("err") or "?")[:50], "run failed: %s %s" % (o.get("err"), o.get("panic")), o)
             continue
         if c["s"]["kind"] == "acks" and len(o["acks"]) == 0:
-            # the publish loop never sent a request: the start-up pause token was taken after the resume signals
-            # (the C27 known finding lost-resume, seen when the loop goroutine is scheduled late); nothing to compare
-            ctx.notes.append("case %s: no publish request at all (publish loop parked at start-up, C27 lost-resume); skipped" % c.get("id"))
+            # two subscriptions registered and not one publish request (before the lost-resume fix this happened when
+            # the loop goroutine was scheduled after the Subscribe calls)
+            report("publish-loop-never-started", "the client holds subscriptions %s but never sent a publish request" % o.get("subs"), o)
             continue
         if c["s"]["kind"] == "acks":
             L, acks = c["l"], o["acks"]
